@@ -13,65 +13,101 @@ import (
 // operations around them. Pairs of recorded traces are then checked for data races by an SMT encoding of
 // their interleavings. Natively the same bodies are run concurrently under `go test -race`.
 
-func vC17World() *vWorld {
+func vC17World() *vWorld { return vC17WorldL("") }
+
+// vC17WorldL: the same shape of documents with other contents (label), at the same locations: what one
+// goroutine computes on its documents must not show up in the answer of another
+func vC17WorldL(l string) *vWorld {
 	// no writes to harness globals here: natively these bodies run concurrently
 	const vURoot, vUSub, vUFar = "file:///w/root.json", "file:///w/sub/a.json", "file:///x/c.json"
 	w := &vWorld{root: vURoot, docs: map[string]string{}}
-	w.docs[vURoot] = `{"swagger":"2.0","info":{"title":"t","version":"1"},"paths":{},"definitions":{"A":{"description":"a","properties":{"x":{"$ref":"sub/a.json#/definitions/C%20d"}}},"B":{"description":"b","items":{"$ref":"#/definitions/A"}}}}`
-	w.docs[vUSub] = `{"definitions":{"C d":{"description":"c","items":{"$ref":"../../x/c.json#/definitions/D"}}}}`
-	w.docs[vUFar] = `{"definitions":{"D":{"description":"d"}}}`
+	w.docs[vURoot] = `{"swagger":"2.0","info":{"title":"t","version":"1"},"paths":{},"definitions":{"A":{"description":"` + l + `a","properties":{"x":{"$ref":"sub/a.json#/definitions/C%20d"}}},"B":{"description":"` + l + `b","items":{"$ref":"#/definitions/A"}}}}`
+	w.docs[vUSub] = `{"definitions":{"C d":{"description":"` + l + `c","items":{"$ref":"../../x/c.json#/definitions/D"}}}}`
+	w.docs[vUFar] = `{"definitions":{"D":{"description":"` + l + `d"}}}`
 	return w
 }
 
+// vAns: the answer of a call as text (result and error), compared natively with the sequential answer
+func vAns(v interface{}, err error) string {
+	b, _ := json.Marshal(v)
+	if err != nil {
+		return string(b) + " error: " + err.Error()
+	}
+	return string(b)
+}
+
 // distinct documents, no cache
-func vt_C17_expandSpec() {
+func vt_C17_expandSpec() string {
 	w := vC17World()
 	root, _ := w.decodeRoot()
 	vTraceBegin()
-	_ = ExpandSpec(root, &ExpandOptions{RelativeBase: w.root, PathLoader: w.loader})
+	err := ExpandSpec(root, &ExpandOptions{RelativeBase: w.root, PathLoader: w.loader})
 	vTraceEnd("t")
+	return vAns(root, err)
 }
 
-func vt_C17_expandSchema() {
-	w := vC17World()
+func vC17ExpandSchema(l string) string {
+	w := vC17WorldL(l)
 	root, _ := w.decodeRoot()
 	s := root.Definitions["B"]
 	vTraceBegin()
-	_ = ExpandSchema(&s, root, nil)
+	err := ExpandSchema(&s, root, nil)
 	vTraceEnd("t")
+	return vAns(&s, err)
 }
 
-func vt_C17_resolve() {
+func vt_C17_expandSchema() string    { return vC17ExpandSchema("") }
+func vt_C17_expandSchemaAlt() string { return vC17ExpandSchema("alt-") } // another document with the same definition names
+
+func vt_C17_resolve() string {
 	w := vC17World()
 	r := MustCreateRef("sub/a.json#/definitions/C%20d")
 	vTraceBegin()
-	_, _ = ResolveRefWithBase(nil, &r, &ExpandOptions{RelativeBase: w.root, PathLoader: w.loader})
+	got, err := ResolveRefWithBase(nil, &r, &ExpandOptions{RelativeBase: w.root, PathLoader: w.loader})
 	vTraceEnd("t")
+	return vAns(got, err)
 }
 
 // one resolution cache shared by the goroutines, same set of documents
-func vt_C17_sharedCache() {
+func vt_C17_sharedCache() string {
 	w := vC17World()
 	root, _ := w.decodeRoot()
 	s := root.Definitions["A"]
 	c := vSharedCache()
 	vTraceBegin()
-	_ = ExpandSchemaWithBasePath(&s, c, &ExpandOptions{RelativeBase: w.root, PathLoader: w.loader})
+	err := ExpandSchemaWithBasePath(&s, c, &ExpandOptions{RelativeBase: w.root, PathLoader: w.loader})
 	vTraceEnd("t")
+	return vAns(&s, err)
 }
 
 // a shared document that nobody mutates: encoding and pointer evaluation
-func vt_C17_marshalShared() {
+func vt_C17_marshalShared() string {
 	doc := vSharedDoc()
 	vTraceBegin()
-	_, _ = json.Marshal(doc)
+	b, err := json.Marshal(doc)
 	vTraceEnd("t")
+	return vAns(json.RawMessage(b), err)
 }
 
-func vt_C17_lookupShared() {
+func vt_C17_lookupShared() string {
 	doc := vSharedDoc()
 	p, _ := jsonpointer.New("/definitions/A/properties/x")
 	vTraceBegin()
-	_, _, _ = p.Get(doc)
+	got, _, err := p.Get(doc)
 	vTraceEnd("t")
+	return vAns(got, err)
+}
+
+// one options value (empty base, no loader) shared by goroutines that expand their own documents: the
+// library may read it, never write it
+const vC17LocalDoc = `{"swagger":"2.0","info":{"title":"t","version":"1"},"paths":{},"definitions":{"A":{"description":"a","properties":{"x":{"$ref":"#/definitions/B"}}},"B":{"description":"b"}}}`
+
+func vt_C17_sharedOptions() string {
+	var root Swagger
+	_ = json.Unmarshal([]byte(vC17LocalDoc), &root)
+	o := vSharedOpts()
+	vTraceBegin()
+	err := ExpandSpec(&root, o)
+	vTraceEnd("t")
+	return vAns(&root, err)
 }
